@@ -203,7 +203,8 @@ def run(ctx, res, focus='c02'):
         cases.append({'op': 'lr_table', 'rows': ex['rows']}); meta.append(('own', rec, None))
         T_ = len(ex['terms'])
         cases.append({'op': 'lr0_check', 'rules': ex['rules'], 'items': ex['items'], 'kernels': ex['kernels'],
-                      'trans': [[q, [1, k] if k < T_ else [0, k - T_], q2] for q, row in enumerate(ex['rows']) for k, q2 in row['shifts']]}); meta.append(('lr0', rec, None))
+                      'trans': [[q, [1, k] if k < T_ else [0, k - T_], q2] for q, row in enumerate(ex['rows']) for k, q2 in row['shifts']],
+                      'order': __import__('earleylib').productive_order(ex['rules']), 'q0': ex['start_state']}); meta.append(('lr0', rec, None))
         if all(x is not None for x in rec['spec_las']):
             cases.append({'op': 'lr_table', 'rows': [{'shifts': r['shifts'], 'las': s} for r, s in zip(ex['rows'], rec['spec_las'])]}); meta.append(('spec', rec, None))
         else:
@@ -225,9 +226,18 @@ def run(ctx, res, focus='c02'):
         ex, g = rec['ex'], rec['grammar']
         T = len(ex['terms'])
         if kind in ('own', 'spec', 'lr0') and focus != 'c02':
+            if kind == 'lr0' and m.get('ok') and m.get('productive') is True and m.get('start_kernel_ok') is True:
+                res.count('automata_under_shifted_terminal_is_legal')      # hypotheses of Props.C08.lalr_shifted_terminal_is_legal hold for lark's own automaton
+            elif kind == 'lr0':
+                res.count('automata_outside_shifted_terminal_is_legal')
             continue
         if kind == 'lr0':
             res.count('lr0_automata_checked'); res.count('lr0_states', len(ex['items']))
+            # hypotheses of Props.C08.lalr_shifted_terminal_is_legal, evaluated by the driver on lark's own automaton
+            if m.get('ok') and m.get('productive') is True and m.get('start_kernel_ok') is True:
+                res.count('automata_under_shifted_terminal_is_legal')
+            elif m.get('start_kernel_ok') is False:
+                res.count('start_kernel_not_of_expected_shape')
             if not m['ok']:
                 lr0_broken.append((rec, m))
             continue
